@@ -225,11 +225,20 @@ func (b *builder) leafLambda(gi int, n NodeSpec, path string) *compose.Lambda {
 			b.rec.mu.Lock()
 			e.Abort = true
 			b.rec.mu.Unlock()
-			return "", compose.InterruptAndRerun
+			return "", rerunErr(att)
 		}
 		b.touch(ctx, gi, key(n.ID), e)
 		return strconv.Itoa(size(in)), nil
 	})
+}
+
+// rerunErr: what a node returns to ask for a rerun: the sentinel itself, or (even attempts) the sentinel
+// wrapped with the node's own context, as errors.Is-style sentinels are meant to be used.
+func rerunErr(att int) error {
+	if att%2 == 0 {
+		return fmt.Errorf("not yet (attempt %d): %w", att, compose.InterruptAndRerun)
+	}
+	return compose.InterruptAndRerun
 }
 
 func (b *builder) lambda(gi int, n NodeSpec, path string) *compose.Lambda {
@@ -246,7 +255,7 @@ func (b *builder) lambda(gi int, n NodeSpec, path string) *compose.Lambda {
 			b.rec.mu.Lock()
 			e.Abort = true
 			b.rec.mu.Unlock()
-			return nil, compose.InterruptAndRerun
+			return nil, rerunErr(att)
 		}
 		b.touch(ctx, gi, k, e)
 		return map[string]any{k: in}, nil
